@@ -4,6 +4,7 @@ import random
 from fractions import Fraction
 
 from vmon import gens as G
+from vmon.gens import THOROUGH_SCALE as TS
 from vmon import oracles as O
 
 PID = "C16"
@@ -187,7 +188,7 @@ def generate(tier, seed):
     for length in (1, 2, 3, 4):
         for first in range(maxv + 1):
             yield "block", {"length": length, "first": first, "maxv": maxv}, True
-    for i in range(400 if thorough else 40):
+    for i in range(400 * TS if thorough else 40):
         L = rng.randint(1, 12)
         vec = [rng.randint(0, 10 ** rng.randint(1, 6)) for _ in range(L)]
         if i % 3 == 0 and L > 1:
@@ -202,7 +203,7 @@ def generate(tier, seed):
         for a in subs:
             for b in subs:
                 yield "sets", {"a": a, "b": b, "ka": "list", "kb": "set"}, True
-    for i in range(3000 if thorough else 200):
+    for i in range(3000 * TS if thorough else 200):
         ints = i % 2 == 0
         pool = list(range(8)) if ints else ["CASSF", "CASF", "CAWF", "A", "", "B", "AB", "C"]
         a = [rng.choice(pool) for _ in range(rng.randint(1, 10))]
